@@ -275,6 +275,9 @@ namespace MomentsSrc
 def absR (x : Rat) : Rat := if x < 0 then -x else x
 /-- `np.clip(x, lo, hi)` = minimum(hi, maximum(x, lo)) -/
 def clipR (x lo hi : Rat) : Rat := let m := if x < lo then lo else x; if hi < m then hi else m
+/-- `np.clip(s, lo, hi)` of a pandas Series `s` dispatches to `Series.clip(lo, hi)`, which first swaps scalar
+    bounds given in the wrong order (`lower, upper = min(lower, upper), max(lower, upper)`) -/
+def clipS (x lo hi : Rat) : Rat := if hi < lo then clipR x hi lo else clipR x lo hi
 
 /-- `_CTRL_EVENT_FORMAT.format(control, event)` -/
 def ctrlFormat (control event : String) : String := {_lean_str(pre)} ++ control ++ {_lean_str(mid)} ++ event ++ {_lean_str(post)}
@@ -308,8 +311,12 @@ def objWeight (fp fn y : Rat) : Rat := {obj_w}
 def errorValue (tfn tfp n : Rat) : Rat := {err_val}
 /-- `ConditionalLossMoment.signed_weights`: adjust entry, l = lambda_g, p = P(g) -/
 def bglAdjust (l p : Rat) : Rat := {adjust}
+/-- `SquareLoss.eval` / `AbsoluteLoss.eval` on numpy arrays … -/
 def squareLoss (lo hi y p : Rat) : Rat := {sq}
 def absoluteLoss (lo hi y p : Rat) : Rat := {ab}
+/-- … and the same expressions on pandas Series (what `ConditionalLossMoment.gamma` passes) -/
+def squareLossS (lo hi y p : Rat) : Rat := {sq.replace("(clipR ", "(clipS ")}
+def absoluteLossS (lo hi y p : Rat) : Rat := {ab.replace("(clipR ", "(clipS ")}
 
 end MomentsSrc
 """
